@@ -37,6 +37,7 @@ def run(tier):
     cc.replay_scenarios(rep, 'GinCore_Scen_refs', max_files=1500, nontrivial=_nontrivial, depth=4, timeout=1200)
   n = 500 if tier == 'quick' else 6000
   cc.replay_behaviours(rep, 'GinCore_Sim_refs', num=n, depth=14, nontrivial=_nontrivial, generate=n * 8)
+  cc.trace_validate(rep, 50 if tier == 'quick' else 600, seed_off=104)
   return rep.finish()
 
 
